@@ -134,6 +134,18 @@ FALLBACK_CHAIN = [
 ]
 
 
+def _accepted_names(tree, module):
+    """the operator names a validating loop lets through: the names tested (`== '$x'`,
+    `in <collection of '$' strings>`) by every `if` whose body starts with `continue`"""
+    out = []
+    for node in ast.walk(tree):
+        if isinstance(node, ast.If) and node.body and isinstance(node.body[0], ast.Continue):
+            for n in _compared_names(node.test, module):
+                if n not in out:
+                    out.append(n)
+    return out
+
+
 def _expr_chain():
     """(chain, not_implemented, how): the `if <name> in <list>: return self._handle_X(..)` tests
     of `_Parser.parse`, in source order, and the list whose test raises NotImplementedError"""
@@ -216,6 +228,10 @@ def extract_tables():
     T['groupInline'] = _compared_names(_src_tree(mm_aggregate._accumulate_group),
                                        mm_aggregate, eq_only=True)
     T['groupOperators'] = list(mm_aggregate.group_operators)
+    # the pre-check of the accumulators of $group / $bucket (run before any document is read): the
+    # names it lets through; everything else raises NotImplementedError there
+    check = getattr(mm_aggregate, '_validate_accumulators', None)
+    T['groupChecked'] = _accepted_names(_src_tree(check), mm_aggregate) if check else []
     T['typeImpl'] = [k for k, v in mm_filtering.TYPE_MAP.items() if v]
     T['typeNone'] = [k for k, v in mm_filtering.TYPE_MAP.items() if not v]
     T['decimalSupport'] = bool(mm_aggregate.decimal_support)
@@ -646,6 +662,8 @@ def reach_counters():
     wrap(mm_aggregate._Parser, 'parse', 'parse')
     wrap(mm_aggregate, 'process_pipeline', 'pipeline')
     wrap(mm_aggregate, '_accumulate_group', 'group')
+    if hasattr(mm_aggregate, '_validate_accumulators'):   # the pre-check of the same names
+        wrap(mm_aggregate, '_validate_accumulators', 'group')
     wrap(mm_collection.Collection, '_apply_update', 'update')
     try:
         yield counts
@@ -707,7 +725,7 @@ def probe_vocab(seed=0, T=None, V=None, positions=None, names=None):
     for key in ('operatorMap', 'logicalOps', 'topLevelNI', 'fieldNI', 'updaters', 'updateInline',
                 'updateChecked',
                 'pushModifiers', 'stagesImpl', 'stagesNone', 'exprNI', 'groupingMap',
-                'groupInline', 'groupOperators'):
+                'groupInline', 'groupOperators', 'groupChecked'):
         for n in T[key]:
             if n not in kinds:
                 kinds[n] = ['code-table']
